@@ -81,7 +81,12 @@ def cubic_spline(
     > Blinn, J. F. (2007). How to solve a cubic equation, part 5: Back to numerics. IEEE Computer
     Graphics and Applications, 27(3):78–89.
     """
-    if torch.min(inputs) < left or torch.max(inputs) > right:
+    # The inverse takes its inputs from the output interval [bottom, top].
+    if inverse:
+        lower, upper = bottom, top
+    else:
+        lower, upper = left, right
+    if torch.min(inputs) < lower or torch.max(inputs) > upper:
         raise InputOutsideDomain()
 
     num_bins = unnormalized_widths.shape[-1]
